@@ -39,7 +39,7 @@ class Mismatch(Exception):
     pass
 
 
-def _wait(pred, what, timeout=20.0):
+def _wait(pred, what, timeout=60.0):
     t0 = time.time()
     while time.time() - t0 < timeout:
         if pred():
@@ -141,7 +141,7 @@ def replay_trace_on_real_kernel(scn, obs):
                 name = key
                 _wait(lambda: any(("%s completed successfully" % name) in l or ("%s failed" % name) in l for l in out_lines)
                       or proc.poll() is not None, "outcome line of %s" % name)
-        proc.wait(timeout=20)
+        proc.wait(timeout=60)
         t1.join(5)
         t2.join(5)
     except (Mismatch, subprocess.TimeoutExpired) as ex:
